@@ -1,16 +1,37 @@
 (* Lemmas for C20: for every response (any list of actions), every fault
-   position, every error class and every handler / server specification that
-   satisfies the decidable conditions spec_ok / server_ok. *)
-(* every command of this file is bounded (the largest, one kernel evaluation of the
-   whole finite domain, takes ~12 s) *)
+   pattern (any set of failing write indices), every error class and every
+   handler / server specification that satisfies the decidable conditions
+   spec_ok / server_ok. *)
 Set Default Timeout 300.
 From Coq Require Import List Arith Bool Lia.
 Import ListNotations.
 From PG Require Import Model.Conn.
 
 Section Fault.
-Variable k : nat.
+Variable fails : nat -> bool.
 Variable c : ioclass.
+
+Notation faulted := (faulted fails).
+Notation add_log := (add_log fails).
+Notation run_actions := (run_actions fails c).
+Notation run_nf := (run_nf fails c).
+Notation do_write := (do_write fails c).
+
+(* ---- faulted ---- *)
+Lemma faulted_step s :
+  existsb fails (seq 0 (S (nw s))) = (faulted s || fails (nw s))%bool.
+Proof.
+  unfold Conn.faulted. rewrite seq_S, existsb_app. simpl. now rewrite orb_false_r.
+Qed.
+
+Lemma do_write_spec s r s' : do_write s = (r, s') ->
+  nw s' = S (nw s) /\ depth s' = depth s /\ log s' = log s /\
+  ((r = Ok /\ faulted s' = faulted s) \/ (r = Raise (XIO c) /\ faulted s' = true)).
+Proof.
+  unfold Conn.do_write. intros H. destruct (fails (nw s)) eqn:F; inversion H; subst; simpl.
+  - repeat split. right. split; [reflexivity|]. unfold Conn.faulted. simpl nw. rewrite faulted_step, F. apply orb_true_r.
+  - repeat split. left. split; [reflexivity|]. unfold Conn.faulted at 1. simpl nw. rewrite faulted_step, F. apply orb_false_r.
+Qed.
 
 Definition quiet (s s' : st) : Prop :=
   exists new, log s' = new ++ log s /\ Forall (fun e => e_after e = false) new.
@@ -28,53 +49,45 @@ Proof.
   - apply Forall_app. split; assumption.
 Qed.
 
-(* ---- run_actions from a state in which the connection has not failed yet ---- *)
+(* ---- run_actions from a state in which no write has failed yet ---- *)
 Lemma run_actions_spec : forall acts s r s',
-  nw s <= k -> run_actions k c acts s = (r, s') ->
+  faulted s = false -> run_actions acts s = (r, s') ->
   quiet s s' /\
   match r with
-  | Ok => nw s' <= k /\ (forall d, final_depth acts (depth s) = Some d -> depth s' = d)
-  | Raise XNotFound => nw s' <= k /\ depth s' = 0
-  | Raise (XIO c') => c' = c /\ nw s' = S k /\ depth s' = 0
+  | Ok => faulted s' = false
+  | Raise XNotFound => faulted s' = false /\ depth s' = 0
+  | Raise (XIO c') => c' = c /\ faulted s' = true /\ depth s' = 0
   | Raise _ => False
   end.
 Proof.
   induction acts as [|a acts IH]; intros s r s' Hn H; simpl in H.
-  - inversion H; subst. split; [apply quiet_refl|]. split; [assumption|]. intros d E. simpl in E. now inversion E.
+  - inversion H; subst. split; [apply quiet_refl | assumption].
   - destruct a.
     + (* AWrite *)
-      unfold do_write in H. destruct (k <=? nw s) eqn:E.
-      * inversion H; subst. apply Nat.leb_le in E. split; [now apply quiet_log|]. simpl.
-        repeat split; lia.
-      * apply Nat.leb_gt in E.
-        specialize (IH (St (S (nw s)) (depth s) (refs s) (log s)) r s').
-        simpl in IH. destruct (IH ltac:(lia) H) as [Q M]. split.
-        { destruct Q as (n & E1 & F1). exists n. split; assumption. }
-        destruct r as [|[c'| | |]]; simpl; try exact M.
+      destruct (do_write s) as [r1 s1] eqn:W.
+      destruct (do_write_spec _ _ _ W) as (N1 & D1 & L1 & [[-> F1]|[-> F1]]).
+      * destruct (IH s1 r s' ltac:(congruence) H) as [Q M]. split; [|exact M].
+        eapply quiet_trans; [apply quiet_log; exact L1 | exact Q].
+      * inversion H; subst. split; [apply quiet_log; exact L1|]. simpl. repeat split; assumption.
     + (* AOpen *)
-      specialize (IH (St (nw s) (S (depth s)) (refs s) (log s)) r s' Hn H). simpl in IH.
-      destruct IH as [Q M]. split; [destruct Q as (n & E1 & F1); exists n; split; assumption|].
-      destruct r as [|[c'| | |]]; simpl; exact M.
+      destruct (IH (St (nw s) (S (depth s)) (refs s) (log s)) r s' Hn H) as [Q M].
+      split; [destruct Q as (n & E1 & F1); exists n; split; assumption | exact M].
     + (* AClose *)
-      specialize (IH (St (nw s) (pred (depth s)) (refs s) (log s)) r s' Hn H). simpl in IH.
-      destruct IH as [Q M]. split; [destruct Q as (n & E1 & F1); exists n; split; assumption|].
-      destruct r as [|[c'| | |]]; simpl; try exact M.
-      destruct M as [M1 M2]. split; [exact M1|]. intros d E. destruct (depth s) as [|d0]; [discriminate|].
-      simpl in M2. now apply M2.
+      destruct (IH (St (nw s) (pred (depth s)) (refs s) (log s)) r s' Hn H) as [Q M].
+      split; [destruct Q as (n & E1 & F1); exists n; split; assumption | exact M].
     + (* AOpenRef *)
-      specialize (IH (St (nw s) (depth s) (S (refs s)) (log s)) r s' Hn H). simpl in IH.
-      destruct IH as [Q M]. split; [destruct Q as (n & E1 & F1); exists n; split; assumption|].
-      destruct r as [|[c'| | |]]; simpl; exact M.
+      destruct (IH (St (nw s) (depth s) (S (refs s)) (log s)) r s' Hn H) as [Q M].
+      split; [destruct Q as (n & E1 & F1); exists n; split; assumption | exact M].
     + (* ANotFound *)
       inversion H; subst. simpl. split.
-      * exists [Entry LFileNotFound true (faulted k s)]. split; [reflexivity|]. constructor; [|constructor].
-        simpl. unfold faulted. apply Nat.ltb_ge. exact Hn.
+      * exists [Entry LFileNotFound true (faulted s)]. split; [reflexivity|]. constructor; [|constructor].
+        simpl. exact Hn.
       * split; [exact Hn | reflexivity].
 Qed.
 
 (* the part before the first write never fails with an I/O error *)
 Lemma run_prep_no_io : forall acts s r s',
-  run_actions k c (prep_part acts) s = (r, s') -> forall c', r <> Raise (XIO c').
+  run_actions (prep_part acts) s = (r, s') -> forall c', r <> Raise (XIO c').
 Proof.
   induction acts as [|a acts IH]; intros s r s' H c'; simpl in H.
   - inversion H. discriminate.
@@ -94,75 +107,55 @@ Proof.
   destruct d; [reflexivity | apply IH].
 Qed.
 
-(* ---- filenotfound: before and after the failure ---- *)
-Lemma run_nf_unfaulted : forall steps s r s',
-  nw s <= k -> run_nf k c steps MsgStr s = (r, s') ->
+(* ---- the error reply: whatever the connection does meanwhile ---- *)
+Definition no_escape (steps : list nfstep) (m : msgval) : Prop :=
+  m = MsgStr \/ forallb nf_plain steps = true.
+
+Lemma run_nf_spec : forall steps m s r s',
+  no_escape steps m -> run_nf steps m s = (r, s') ->
   log s' = log s /\ depth s' = depth s /\
   match r with
-  | Ok => nw s' <= k
-  | Raise (XIO c') => c' = c /\ nw s' = S k
+  | Ok => faulted s' = faulted s
+  | Raise (XIO c') => c' = c /\ faulted s' = true
   | Raise _ => False
   end.
 Proof.
-  induction steps as [|a steps IH]; intros s r s' Hn H; simpl in H.
+  induction steps as [|a steps IH]; intros m s r s' Hm H; simpl in H.
   - inversion H; subst. auto.
-  - assert (G : match do_write k c s with
-                | (Ok, s1) => run_nf k c steps MsgStr s1
+  - assert (Hm' : no_escape steps m).
+    { destruct Hm as [Hm|Hm]; [now left|]. right. simpl in Hm. now apply andb_true_iff in Hm. }
+    assert (G : match do_write s with
+                | (Ok, s1) => run_nf steps m s1
                 | (Raise x, s1) => (Raise x, s1)
-                end = (r, s')) by (destruct a; exact H).
-    clear H. unfold do_write in G. destruct (k <=? nw s) eqn:E.
-    + inversion G; subst. apply Nat.leb_le in E. simpl. repeat split; lia.
-    + apply Nat.leb_gt in E.
-      specialize (IH (St (S (nw s)) (depth s) (refs s) (log s)) r s'). simpl in IH.
-      apply IH; [lia | exact G].
-Qed.
-
-Lemma run_nf_faulted : forall steps m s r s',
-  k < nw s -> run_nf k c steps m s = (r, s') ->
-  log s' = log s /\ depth s' = depth s /\ k < nw s' /\
-  match steps with
-  | [] => r = Ok
-  | NfW :: _ => r = Raise (XIO c)
-  | NfWEscape :: _ => match m with MsgStr => r = Raise (XIO c) | MsgNone => r = Raise XAttr end
-  end.
-Proof.
-  intros steps m s r s' Hn H. destruct steps as [|a steps]; simpl in H.
-  - inversion H; subst. auto.
-  - assert (W : do_write k c s = (Raise (XIO c), St (S (nw s)) (depth s) (refs s) (log s))).
-    { unfold do_write. destruct (k <=? nw s) eqn:E; [reflexivity|]. apply Nat.leb_gt in E. lia. }
-    destruct a.
-    + rewrite W in H. inversion H; subst. simpl. repeat split; auto.
-    + destruct m.
-      * rewrite W in H. inversion H; subst. simpl. repeat split; auto.
-      * inversion H; subst. repeat split; auto.
+                end = (r, s')).
+    { destruct a; [exact H|]. destruct m; [exact H|]. destruct Hm as [Hm|Hm]; [discriminate|].
+      simpl in Hm. discriminate. }
+    clear H. destruct (do_write s) as [r1 s1] eqn:W.
+    destruct (do_write_spec _ _ _ W) as (N1 & D1 & L1 & [[-> F1]|[-> F1]]).
+    + destruct (IH m s1 r s' Hm' G) as (L & D & M). split; [congruence|]. split; [congruence|].
+      destruct r as [|[c'| | |]]; try exact M. congruence.
+    + inversion G; subst. simpl. repeat split; assumption.
 Qed.
 
 (* ---- the log after server.handle ---- *)
 Definition own (e : entry) : Prop := e_cls e = LIO c /\ e_addr e = true.
 Definition log_ok (s : st) : Prop :=
   (forall e, In e (log s) -> e_after e = true -> own e) /\
-  (faulted k s = true -> exists e, In e (log s) /\ e_after e = true).
+  (faulted s = true -> exists e, In e (log s) /\ e_after e = true).
 
 Lemma quiet_no_after s s' : log s = [] -> quiet s s' -> forall e, In e (log s') -> e_after e = false.
 Proof.
   intros E (n & E1 & F) e He. rewrite E1, E, app_nil_r in He. rewrite Forall_forall in F. now apply F.
 Qed.
 
-Lemma add_log_faulted l a s : k < nw s ->
-  log (add_log k l a s) = Entry l a true :: log s /\ nw (add_log k l a s) = nw s /\ depth (add_log k l a s) = depth s.
-Proof.
-  intros H. unfold add_log, faulted. simpl. apply Nat.ltb_lt in H. now rewrite H.
-Qed.
-
-Lemma add_log_unfaulted l a s : nw s <= k ->
-  log (add_log k l a s) = Entry l a false :: log s /\ nw (add_log k l a s) = nw s /\ depth (add_log k l a s) = depth s.
-Proof.
-  intros H. unfold add_log, faulted. simpl. apply Nat.ltb_ge in H. now rewrite H.
-Qed.
+Lemma add_log_spec l a s :
+  log (add_log l a s) = Entry l a (faulted s) :: log s /\ nw (add_log l a s) = nw s /\
+  depth (add_log l a s) = depth s /\ faulted (add_log l a s) = faulted s.
+Proof. unfold Conn.add_log. simpl. repeat split. Qed.
 
 (* what server_catch does for a well-formed server specification *)
 Lemma server_catch_ok sp x s : server_ok sp = true ->
-  server_catch k sp x s = (Contained, add_log k (cls_of x) true s).
+  server_catch fails sp x s = (Contained, add_log (cls_of x) true s).
 Proof.
   intros H. destruct sp as [|[f l] sp]; [discriminate|]. destruct f.
   - destruct l; [|discriminate]. destruct sp as [|[f2 l2] sp]; [discriminate|].
@@ -171,51 +164,50 @@ Proof.
   - destruct l; [|discriminate]. simpl. reflexivity.
 Qed.
 
-(* case: the exception reaching the server is the I/O error of the failed
-   connection, and nothing was logged after the failure except own-class records *)
-Lemma finish_io s : k < nw s ->
+(* the exception reaching the server is the I/O error of the failed connection *)
+Lemma finish_io s : faulted s = true ->
   (forall e, In e (log s) -> e_after e = true -> own e) ->
-  log_ok (add_log k (LIO c) true s).
+  log_ok (add_log (LIO c) true s).
 Proof.
-  intros Hn Hl. destruct (add_log_faulted (LIO c) true s Hn) as (E & _ & _). split.
+  intros Hn Hl. destruct (add_log_spec (LIO c) true s) as (E & _ & _ & F). rewrite Hn in E. split.
   - intros e He Ha. rewrite E in He. destruct He as [He|He]; [subst e; split; reflexivity | now apply Hl].
   - intros _. exists (Entry (LIO c) true true). rewrite E. split; [now left | reflexivity].
 Qed.
 
-Lemma unfaulted_ok s : nw s <= k -> (forall e, In e (log s) -> e_after e = false) -> log_ok s.
+Lemma unfaulted_ok s : faulted s = false -> (forall e, In e (log s) -> e_after e = false) -> log_ok s.
 Proof.
   intros Hn Hl. split.
   - intros e He Ha. rewrite (Hl e He) in Ha. discriminate.
-  - unfold faulted. intros F. apply Nat.ltb_lt in F. lia.
+  - intros F. congruence.
 Qed.
 
-Lemma unfaulted_add_ok l s : nw s <= k -> (forall e, In e (log s) -> e_after e = false) -> log_ok (add_log k l true s).
+Lemma unfaulted_add_ok l s : faulted s = false -> (forall e, In e (log s) -> e_after e = false) ->
+  log_ok (add_log l true s).
 Proof.
-  intros Hn Hl. destruct (add_log_unfaulted l true s Hn) as (E & N & _).
-  apply unfaulted_ok; [lia|]. intros e He. rewrite E in He. destruct He as [He|He]; [now subst e | now apply Hl].
+  intros Hn Hl. destruct (add_log_spec l true s) as (E & _ & _ & F). rewrite Hn in E.
+  apply unfaulted_ok; [congruence|]. intros e He. rewrite E in He. destruct He as [He|He]; [now subst e | now apply Hl].
 Qed.
 
 Theorem logged_own_class sp h acts :
   server_ok sp = true -> spec_ok h = true ->
-  forall o s, server_handle k c sp h acts = (o, s) -> o = Contained /\ log_ok s.
+  forall o s, server_handle fails c sp h acts = (o, s) -> o = Contained /\ log_ok s.
 Proof.
   intros Hsp Hh o s H. unfold server_handle, proto_handle in H.
   set (tried := if body_in_try h then acts else prep_part acts) in H.
   set (aft := if body_in_try h then [] else send_part acts) in H.
-  destruct (run_actions k c tried init_st) as [r1 s1] eqn:R1.
-  assert (N0 : nw init_st <= k) by (simpl; lia).
+  destruct (run_actions tried init_st) as [r1 s1] eqn:R1.
+  assert (N0 : faulted init_st = false) by reflexivity.
   destruct (run_actions_spec tried init_st r1 s1 N0 R1) as [Q1 M1].
   pose proof (quiet_no_after init_st s1 eq_refl Q1) as L1.
   destruct r1 as [|[c'| | |]]; try contradiction.
   - (* the tried part went through; the rest runs outside the try *)
-    destruct M1 as [N1 _].
-    destruct (run_actions k c aft s1) as [r2 s2] eqn:R2.
-    destruct (run_actions_spec aft s1 r2 s2 N1 R2) as [Q2 M2].
+    destruct (run_actions aft s1) as [r2 s2] eqn:R2.
+    destruct (run_actions_spec aft s1 r2 s2 M1 R2) as [Q2 M2].
     pose proof (quiet_no_after init_st s2 eq_refl (quiet_trans _ _ _ Q1 Q2)) as L2.
     destruct r2 as [|[c'| | |]]; try contradiction.
-    + inversion H; subst. split; [reflexivity|]. apply unfaulted_ok; tauto.
+    + inversion H; subst. split; [reflexivity|]. now apply unfaulted_ok.
     + rewrite server_catch_ok in H by exact Hsp. inversion H; subst. split; [reflexivity|].
-      destruct M2 as (-> & N2 & _). apply finish_io; [lia|].
+      destruct M2 as (-> & N2 & _). apply finish_io; [exact N2|].
       intros e He Ha. rewrite (L2 e He) in Ha. discriminate.
     + rewrite server_catch_ok in H by exact Hsp. inversion H; subst. split; [reflexivity|].
       destruct M2 as (N2 & _). now apply unfaulted_add_ok.
@@ -224,72 +216,58 @@ Proof.
     assert (T : body_in_try h = true).
     { destruct (body_in_try h) eqn:B; [reflexivity|]. exfalso.
       subst tried. exact (run_prep_no_io acts init_st _ _ R1 c eq_refl). }
-    unfold spec_ok in Hh. rewrite T in Hh. simpl in Hh.
-    set (s2 := if io_logs h then add_log k (LIO c) true s1 else s1) in H.
-    assert (P2 : k < nw s2 /\ (forall e, In e (log s2) -> e_after e = true -> own e) /\
-                 (io_logs h = true -> exists e, In e (log s2) /\ e_after e = true)).
-    { subst s2. destruct (io_logs h).
-      - destruct (add_log_faulted (LIO c) true s1 ltac:(lia)) as (E & N & _). rewrite E, N. split; [lia|]. split.
-        + intros e [He|He] Ha; [subst e; split; reflexivity|]. rewrite (L1 e He) in Ha. discriminate.
-        + intros _. exists (Entry (LIO c) true true). split; [now left | reflexivity].
-      - split; [lia|]. split; [|discriminate]. intros e He Ha. rewrite (L1 e He) in Ha. discriminate. }
-    destruct P2 as (N2 & O2 & X2).
-    destruct (io_msg h) eqn:Mh; try discriminate; unfold eval_msg in H.
-    + (* e.strerror, first step of filenotfound is a plain write *)
-      assert (exists m, (match c with TIMEOUT => (Ok, MsgNone) | _ => (Ok, MsgStr) end) = (Ok, m)) as [m Em]
-        by (destruct c; eexists; reflexivity).
-      assert (H' : match run_nf k c (nf_steps h) m s2 with
-                   | (Ok, s0) => (Contained, s0)
-                   | (Raise x, s0) => server_catch k sp x s0
-                   end = (o, s)) by (destruct c; inversion Em; subst; exact H).
-      clear H. destruct (run_nf k c (nf_steps h) m s2) as [r3 s3] eqn:R3.
-      destruct (run_nf_faulted _ _ _ _ _ N2 R3) as (E3 & _ & N3 & F3).
-      destruct (nf_steps h) as [|[|] st']; try discriminate. subst r3.
-      rewrite server_catch_ok in H' by exact Hsp. inversion H'; subst. split; [reflexivity|].
-      apply finish_io; [exact N3|]. rewrite E3. exact O2.
-    + (* e.strerror or str(e) *)
-      assert (H' : match run_nf k c (nf_steps h) MsgStr s2 with
-                   | (Ok, s0) => (Contained, s0)
-                   | (Raise x, s0) => server_catch k sp x s0
-                   end = (o, s)) by (destruct c; exact H).
-      clear H. destruct (run_nf k c (nf_steps h) MsgStr s2) as [r3 s3] eqn:R3.
-      destruct (run_nf_faulted _ _ _ _ _ N2 R3) as (E3 & _ & N3 & F3).
-      destruct (nf_steps h) as [|[|] st'].
-      * subst r3. inversion H'; subst. split; [reflexivity|]. split.
-        -- rewrite E3. exact O2.
-        -- intros _. rewrite E3. now apply X2.
-      * subst r3. rewrite server_catch_ok in H' by exact Hsp. inversion H'; subst. split; [reflexivity|].
-        apply finish_io; [exact N3|]. rewrite E3. exact O2.
-      * subst r3. rewrite server_catch_ok in H' by exact Hsp. inversion H'; subst. split; [reflexivity|].
-        apply finish_io; [exact N3|]. rewrite E3. exact O2.
+    unfold spec_ok in Hh. rewrite T in Hh. simpl in Hh. apply andb_true_iff in Hh as [Hl Hm].
+    rewrite Hl in H.
+    destruct (add_log_spec (LIO c) true s1) as (E2 & _ & _ & F2). rewrite N1 in E2.
+    set (s2 := add_log (LIO c) true s1) in *.
+    assert (O2 : forall e, In e (log s2) -> e_after e = true -> own e).
+    { intros e He Ha. rewrite E2 in He. destruct He as [He|He]; [subst e; split; reflexivity|].
+      rewrite (L1 e He) in Ha. discriminate. }
+    assert (X2 : exists e, In e (log s2) /\ e_after e = true).
+    { exists (Entry (LIO c) true true). rewrite E2. split; [now left | reflexivity]. }
+    assert (F2' : faulted s2 = true) by congruence.
+    (* the message never raises, and the reply never trips over it *)
+    assert (EM : exists m, eval_msg c (io_msg h) = (Ok, m) /\ no_escape (nf_steps h) m).
+    { destruct (io_msg h); try discriminate.
+      - destruct c; simpl; eexists; (split; [reflexivity|]); (try (now left)); now right.
+      - destruct c; simpl; eexists; (split; [reflexivity|]); now left. }
+    destruct EM as (m & Em & Hne). rewrite Em in H.
+    destruct (run_nf (nf_steps h) m s2) as [r3 s3] eqn:R3.
+    destruct (run_nf_spec _ _ _ _ _ Hne R3) as (E3 & _ & M3).
+    destruct r3 as [|[c'| | |]]; try contradiction.
+    + inversion H; subst. split; [reflexivity|]. split.
+      * rewrite E3. exact O2.
+      * intros _. rewrite E3. exact X2.
+    + destruct M3 as (-> & N3). rewrite server_catch_ok in H by exact Hsp. inversion H; subst.
+      split; [reflexivity|]. apply finish_io; [exact N3|]. rewrite E3. exact O2.
   - (* except FileNotFound: the error page is written; the connection may fail there *)
     destruct M1 as (N1 & _).
-    destruct (run_nf k c (nf_steps h) MsgStr s1) as [r3 s3] eqn:R3.
-    destruct (run_nf_unfaulted _ _ _ _ N1 R3) as (E3 & _ & F3).
+    destruct (run_nf (nf_steps h) MsgStr s1) as [r3 s3] eqn:R3.
+    destruct (run_nf_spec _ _ _ _ _ (or_introl eq_refl) R3) as (E3 & _ & M3).
     destruct r3 as [|[c'| | |]]; try contradiction.
-    + inversion H; subst. split; [reflexivity|]. apply unfaulted_ok; [exact F3|]. rewrite E3. exact L1.
-    + destruct F3 as (-> & N3). rewrite server_catch_ok in H by exact Hsp. inversion H; subst.
-      split; [reflexivity|]. apply finish_io; [lia|]. rewrite E3.
+    + inversion H; subst. split; [reflexivity|]. apply unfaulted_ok; [congruence|]. rewrite E3. exact L1.
+    + destruct M3 as (-> & N3). rewrite server_catch_ok in H by exact Hsp. inversion H; subst.
+      split; [reflexivity|]. apply finish_io; [exact N3|]. rewrite E3.
       intros e He Ha. rewrite (L1 e He) in Ha. discriminate.
 Qed.
 
 (* nothing propagates past server.handle, whatever the handler specification *)
 Theorem contained sp h acts : server_ok sp = true ->
-  fst (server_handle k c sp h acts) = Contained.
+  fst (server_handle fails c sp h acts) = Contained.
 Proof.
-  intros Hsp. unfold server_handle. destruct (proto_handle k c h acts init_st) as [[|x] s]; [reflexivity|].
+  intros Hsp. unfold server_handle. destruct (proto_handle fails c h acts init_st) as [[|x] s]; [reflexivity|].
   now rewrite server_catch_ok.
 Qed.
 
 (* ---- files ---- *)
-Lemma server_catch_depth sp x s : depth (snd (server_catch k sp x s)) = depth s.
+Lemma server_catch_depth sp x s : depth (snd (server_catch fails sp x s)) = depth s.
 Proof.
   induction sp as [|[f l] sp IH]; simpl; [reflexivity|].
   destruct (filter_matches f x); [|exact IH]. destruct l; reflexivity.
 Qed.
 
 Lemma run_actions_depth : forall acts s r s',
-  run_actions k c acts s = (r, s') ->
+  run_actions acts s = (r, s') ->
   match r with
   | Ok => forall d, final_depth acts (depth s) = Some d -> depth s' = d
   | Raise _ => depth s' = 0
@@ -298,7 +276,7 @@ Proof.
   induction acts as [|a acts IH]; intros s r s' H; simpl in H.
   - inversion H; subst. intros d E. simpl in E. now inversion E.
   - destruct a.
-    + unfold do_write in H. destruct (k <=? nw s).
+    + unfold Conn.do_write in H. destruct (fails (nw s)).
       * inversion H; subst. reflexivity.
       * specialize (IH _ _ _ H). simpl in IH. destruct r; exact IH.
     + specialize (IH _ _ _ H). simpl in IH. destruct r; exact IH.
@@ -308,26 +286,26 @@ Proof.
     + inversion H; subst. reflexivity.
 Qed.
 
-Lemma run_nf_depth : forall steps m s r s', run_nf k c steps m s = (r, s') -> depth s' = depth s.
+Lemma run_nf_depth : forall steps m s r s', run_nf steps m s = (r, s') -> depth s' = depth s.
 Proof.
   induction steps as [|a steps IH]; intros m s r s' H; simpl in H.
   - now inversion H.
   - destruct a.
-    + unfold do_write in H. destruct (k <=? nw s); [now inversion H|].
+    + unfold Conn.do_write in H. destruct (fails (nw s)); [now inversion H|].
       apply IH in H. exact H.
     + destruct m; [|now inversion H].
-      unfold do_write in H. destruct (k <=? nw s); [now inversion H|].
+      unfold Conn.do_write in H. destruct (fails (nw s)); [now inversion H|].
       apply IH in H. exact H.
 Qed.
 
 Theorem files_closed sp h acts : balanced acts ->
-  depth (snd (server_handle k c sp h acts)) = 0.
+  depth (snd (server_handle fails c sp h acts)) = 0.
 Proof.
   intros B. unfold balanced in B. unfold server_handle.
-  assert (P : forall r s, proto_handle k c h acts init_st = (r, s) -> depth s = 0).
+  assert (P : forall r s, proto_handle fails c h acts init_st = (r, s) -> depth s = 0).
   { intros r s H. unfold proto_handle in H.
     destruct (body_in_try h).
-    - destruct (run_actions k c acts init_st) as [r1 s1] eqn:R1.
+    - destruct (run_actions acts init_st) as [r1 s1] eqn:R1.
       pose proof (run_actions_depth _ _ _ _ R1) as D1.
       destruct r1 as [|x].
       + simpl in H. inversion H; subst. apply D1. exact B.
@@ -339,7 +317,7 @@ Proof.
         * inversion H; subst. exact D1.
         * apply run_nf_depth in H. now rewrite H.
     - rewrite final_depth_split in B.
-      destruct (run_actions k c (prep_part acts) init_st) as [r1 s1] eqn:R1.
+      destruct (run_actions (prep_part acts) init_st) as [r1 s1] eqn:R1.
       pose proof (run_actions_depth _ _ _ _ R1) as D1.
       destruct r1 as [|x].
       + destruct (final_depth (prep_part acts) 0) as [d1|] eqn:F1; [|discriminate].
@@ -354,18 +332,28 @@ Proof.
         * inversion H; subst. exact D1.
         * inversion H; subst. exact D1.
         * apply run_nf_depth in H. now rewrite H. }
-  destruct (proto_handle k c h acts init_st) as [[|x] s] eqn:E.
+  destruct (proto_handle fails c h acts init_st) as [[|x] s] eqn:E.
   - simpl. now apply (P Ok).
   - rewrite server_catch_depth. now apply (P (Raise x)).
 Qed.
 End Fault.
 
-(* the pinned Gopher+ handler with a one-argument timeout: the failure is logged
-   a second time as IndexError *)
+(* the pinned Gopher+ handler with a one-argument timeout on a connection that
+   is gone: the failure is logged a second time as IndexError *)
 Lemma argsindex_refuted :
   exists p acts k,
-    In (Entry LIndexError true true) (log (snd (server_handle k TIMEOUT pinned_server (pinned_spec p) acts))).
+    In (Entry LIndexError true true)
+       (log (snd (server_handle (window k None) TIMEOUT pinned_server (pinned_spec p) acts))).
 Proof. exists PCGopherPlus, [AWrite], 0. vm_compute. tauto. Qed.
+
+(* `e.strerror` alone in a handler whose reply escapes the message: one write
+   times out, the connection recovers, html.escape(None) raises AttributeError *)
+Lemma strerror_escape_refuted :
+  exists acts k,
+    In (Entry LAttributeError true true)
+       (log (snd (server_handle (window k (Some 1)) TIMEOUT pinned_server
+                   (HSpec true true MStrerror [NfW; NfW; NfW; NfW; NfWEscape; NfW]) acts))).
+Proof. exists [AWrite], 0. vm_compute. tauto. Qed.
 
 Lemma pinned_not_ok : map (fun p => spec_ok (pinned_spec p)) all_pclass = [true; false; false; false; true; true].
 Proof. reflexivity. Qed.
